@@ -26,9 +26,9 @@ static int nreaders = 2, nupdaters = 1, rops = 30, uops = 3, use_sig, churn = 1,
 static volatile long X[MAXU], Y[MAXU];
 
 /* oracle bookkeeping (not part of the traced program) */
-static long in_cs_since[MAXR + 1];	/* logical time rcu_read_lock() returned for the outermost section, 0 = outside */
-static long minX[MAXR + 1][MAXU], maxY[MAXR + 1][MAXU];
-static int depth[MAXR + 1];
+static long in_cs_since[MAXR + MAXU + 2];	/* logical time rcu_read_lock() returned for the outermost section, 0 = outside */
+static long minX[MAXR + MAXU + 2][MAXU], maxY[MAXR + MAXU + 2][MAXU];
+static int depth[MAXR + MAXU + 2];
 static long lclock = 1;
 static int reader_tid[MAXR + 1];
 
@@ -184,7 +184,7 @@ static void *updater(void *arg)
 	int u = (int)(long)arg, k, r;
 	if (use_sig) {
 		/* C19: the handler may also interrupt synchronize_rcu(); it needs a registered thread */
-		my_r = 0;
+		my_r = MAXR + 1 + u;	/* handler sections of this updater thread get their own oracle slot */
 		vrt_name(&URCU_TLS(rcu_reader).ctr, sizeof(unsigned long), "reader%d.ctr", vrt_self());
 		vrt_log("CALL register");
 		rcu_register_thread();
@@ -204,6 +204,11 @@ static void *updater(void *arg)
 			if (in_cs_since[r] && in_cs_since[r] < call_time)
 				vrt_fail("gp", "synchronize_rcu() of updater %d (call at %ld) returned while reader %d is still in a section begun at %ld",
 					 u, call_time, r, in_cs_since[r]);
+		/* sections opened by signal handlers on OTHER updater threads (e.g. while they wait inside their own synchronize_rcu()) */
+		for (r = 0; r < nupdaters; r++)
+			if (r != u && in_cs_since[MAXR + 1 + r] && in_cs_since[MAXR + 1 + r] < call_time)
+				vrt_fail("gp", "synchronize_rcu() of updater %d (call at %ld) returned while a signal handler on updater %d's thread is still in a section begun at %ld",
+					 u, call_time, r, in_cs_since[MAXR + 1 + r]);
 		vrt_point();
 		Y[u] = k;
 		vrt_log("DST Y%d %d", u, k);
